@@ -146,11 +146,18 @@ func genBracket(r *RNG, p *Pool) string {
 	}
 }
 
+// extraRangeGens: additional per-ecosystem range generators registered from init() functions
+// of other files (harness/x_<eco>.go); used for a quarter of the draws.
+var extraRangeGens = map[string][]func(r *RNG, p *Pool) string{}
+
 // genRange produces a mostly valid native range over bounds from the pool.
 func genRange(r *RNG, eco string, p *Pool) string {
 	syn := rangeSyn[eco]
 	if len(p.Strs) == 0 {
 		return ">=1"
+	}
+	if g := extraRangeGens[eco]; len(g) > 0 && r.Chance(25) {
+		return g[r.Intn(len(g))](r, p)
 	}
 	if syn.Bracket && (len(syn.Ops) == 0 || r.Chance(60)) {
 		return genBracket(r, p)
